@@ -28,6 +28,9 @@
 (*     of site that equates types (annotated definition, constant, list    *)
 (*     literal, list annotation, call argument, assignment, ==, blob       *)
 (*     field, ret, tail expression), before / after / around the operator; *)
+(*     or the operands are fine and the RESULT is pinned to a type the     *)
+(*     operator cannot give (int / int is a float), before or after the    *)
+(*     operands become known;                                              *)
 (*  V  one value with an unresolved element type ([] alone, inside a       *)
 (*     tuple, a list, a generic blob, a generic enum value) held by a      *)
 (*     global constant / mutable global / local constant / mutable local / *)
@@ -73,8 +76,18 @@ HasOp(op, t) == IF t.k = "s" THEN ScalarSup(op, t.nm)
                 ELSE FALSE
 OpHolds(op, a, b) == IF op \in {"==", "!="} THEN a = b ELSE a = b /\ HasOp(op, a)
 
-Sys(vars, dom, eqs, ops) == [vars |-> vars, dom |-> dom, eqs |-> eqs, ops |-> ops]
+\* the type of the result of an operator on two operands of (ground) type t: comparisons give a bool, a quotient is a
+\* float (element-wise on tuples), + - * keep the operands' type
+RECURSIVE Quot(_)
+Quot(t) == IF t.k = "s" THEN (IF t.nm \in {"int", "float"} THEN TmS("float") ELSE t)
+           ELSE [k |-> t.k, nm |-> t.nm, es |-> [j \in 1..Len(t.es) |-> Quot(t.es[j])]]
+OpRes(op, t) == IF op \in {"<", ">=", "==", "!="} THEN TmS("bool") ELSE IF op = "/" THEN Quot(t) ELSE t
+
+\* res: result requirements [op, a, r]: the term r is the type of the result of op on operands of type a
+SysR(vars, dom, eqs, ops, res) == [vars |-> vars, dom |-> dom, eqs |-> eqs, ops |-> ops, res |-> res]
+Sys(vars, dom, eqs, ops) == SysR(vars, dom, eqs, ops, <<>>)
 Rq(op, a, b) == [op |-> op, a |-> a, b |-> b]
+Rs(op, a, r) == [op |-> op, a |-> a, r |-> r]
 SDom == {"int", "str", "bool", "float"}
 \* a system of equations between terms whose only constants are int and str is satisfiable iff it is satisfiable over
 \* {int, str} (a variable not forced to a constant can take any type, e.g. int): family X uses this smaller domain
@@ -82,6 +95,7 @@ SDom2 == {"int", "str"}
 Sat(s) == \E asg \in [s.vars -> s.dom] :
             /\ \A i \in 1..Len(s.eqs) : Inst(s.eqs[i][1], asg) = Inst(s.eqs[i][2], asg)
             /\ \A i \in 1..Len(s.ops) : OpHolds(s.ops[i].op, Inst(s.ops[i].a, asg), Inst(s.ops[i].b, asg))
+            /\ \A i \in 1..Len(s.res) : Inst(s.res[i].r, asg) = OpRes(s.res[i].op, Inst(s.res[i].a, asg))
 
 \* AST type of a ground term
 RECURSIVE TermTy(_)
@@ -107,21 +121,37 @@ LOps == <<"+", "-", "*", "/", "<", "==">>
 LCand == << <<"int", "str">>, <<"str", "int">>, <<"str", "str">>, <<"int", "int">> >>
 LShapes == <<"(h,i)", "(i,h)", "(i,(h,i))", "((h,i),i)", "(h,h)">>
 TI == TmS("int")
-LTerm(sh, x) == CASE sh = "(h,i)" -> TmT(<<x, TI>>)
-                  [] sh = "(i,h)" -> TmT(<<TI, x>>)
-                  [] sh = "(i,(h,i))" -> TmT(<<TI, TmT(<<x, TI>>)>>)
-                  [] sh = "((h,i),i)" -> TmT(<<TmT(<<x, TI>>), TI>>)
-                  [] sh = "(h,h)" -> TmT(<<x, x>>)
+\* the shape with x in the hole and c at the other components
+LTermC(sh, x, c) == CASE sh = "(h,i)" -> TmT(<<x, c>>)
+                      [] sh = "(i,h)" -> TmT(<<c, x>>)
+                      [] sh = "(i,(h,i))" -> TmT(<<c, TmT(<<x, c>>)>>)
+                      [] sh = "((h,i),i)" -> TmT(<<TmT(<<x, c>>), c>>)
+                      [] sh = "(h,h)" -> TmT(<<x, x>>)
+LTerm(sh, x) == LTermC(sh, x, TI)
+\* the type a RESULT pin writes: x at the hole; the int components have become what the operator makes of two ints
+LResTerm(op, sh, x) == IF op \in {"<", "=="} THEN x ELSE LTermC(sh, x, OpRes(op, TI))
 \* the system: the two pins (and the arguments of the call) fix a and b, the operator relates the two compounds
-LSys(op, sh, ts) ==
-  Sys({"a", "b"}, SDom,
-      << <<LTerm(sh, TmV("a")), LTerm(sh, TmS(ts[1]))>>, <<LTerm(sh, TmV("b")), LTerm(sh, TmS(ts[2]))>>,
-         <<TmV("a"), TmS(ts[1])>>, <<TmV("b"), TmS(ts[2])>> >>,
-      <<Rq(op, LTerm(sh, TmV("a")), LTerm(sh, TmV("b")))>>)
-LAll == [i \in 1..(Len(LOps) * Len(LCand)) |-> [op |-> LOps[((i - 1) \div Len(LCand)) + 1], ts |-> LCand[((i - 1) % Len(LCand)) + 1]]]
-\* planted: the (operator, component types) combinations the model rejects
-LOpPairs == SelectSeq(LAll, LAMBDA p : ~Sat(LSys(p.op, "(h,i)", p.ts)))
+\* rt # "": the RESULT z of the operator is pinned too (r: <result shape with rt in the hole> = z)
+LSys(op, sh, ts, rt) ==
+  SysR({"a", "b"}, SDom,
+       << <<LTerm(sh, TmV("a")), LTerm(sh, TmS(ts[1]))>>, <<LTerm(sh, TmV("b")), LTerm(sh, TmS(ts[2]))>>,
+          <<TmV("a"), TmS(ts[1])>>, <<TmV("b"), TmS(ts[2])>> >>,
+       <<Rq(op, LTerm(sh, TmV("a")), LTerm(sh, TmV("b")))>>,
+       IF rt = "" THEN <<>> ELSE <<Rs(op, LTerm(sh, TmV("a")), LResTerm(op, sh, TmS(rt)))>>)
 LBaseTs == <<"int", "int">>
+LBaseRt(op) == IF op = "/" THEN "float" ELSE IF op \in {"<", "=="} THEN "bool" ELSE "int"
+\* candidates: (1) operand types that may contradict the operator; (2) well-typed int operands and a pin of the RESULT
+\* (rt in the hole of the result type), placed right after the operator (rfirst) or after the pins of the operands (rlast)
+LResOps == <<"+", "-", "*", "/", "<">>
+LResTys == <<"int", "str">>
+LResPos == <<"rfirst", "rlast">>
+LAll == [i \in 1..(Len(LOps) * Len(LCand)) |->
+           [op |-> LOps[((i - 1) \div Len(LCand)) + 1], ts |-> LCand[((i - 1) % Len(LCand)) + 1], rt |-> "", rpos |-> ""]]
+        \o [i \in 1..(Len(LResOps) * Len(LResTys) * Len(LResPos)) |->
+              [op |-> LResOps[((i - 1) \div (Len(LResTys) * Len(LResPos))) + 1], ts |-> LBaseTs,
+               rt |-> LResTys[(((i - 1) \div Len(LResPos)) % Len(LResTys)) + 1], rpos |-> LResPos[((i - 1) % Len(LResPos)) + 1]]]
+\* planted: the combinations the model rejects
+LOpPairs == SelectSeq(LAll, LAMBDA p : ~Sat(LSys(p.op, "(h,i)", p.ts, p.rt)))
 \* (site of the pin of x, site of the pin of y)
 LSites == << <<"annot", "annot">>, <<"annotc", "annotc">>, <<"listlit", "listlit">>, <<"listannot", "listannot">>,
              <<"callarg", "callarg">>, <<"assign", "assign">>, <<"eq", "eq">>, <<"field", "field">>,
@@ -156,6 +186,8 @@ LSide(m, planted) ==
       st == LSiteOf(m)
       sc == LScen[m[4]]
       ts == IF planted THEN p.ts ELSE LBaseTs
+      rt == IF planted THEN p.rt ELSE LBaseRt(p.op)
+      rpin(pos) == IF p.rt # "" /\ p.rpos = pos THEN <<DefM(516, TermTy(LResTerm(p.op, sh, TmS(rt))), V(505))>> ELSE <<>>
       hole == LTerm(sh, TmV("h"))
       defs == <<DefM(503, TNone, TermVal(hole, 1, [h |-> V(501)])), DefM(504, TNone, TermVal(hole, 2, [h |-> V(502)]))>>
       opst == <<DefC(505, TNone, Bin(p.op, V(503), V(504)))>>
@@ -167,9 +199,9 @@ LSide(m, planted) ==
       rv == IF isret(st[1]) THEN 503 ELSE 504
       rs == IF isret(st[1]) THEN st[1] ELSE st[2]
       retst == IF rs = "ret" THEN <<Ret(V(rv))>> ELSE IF rs = "tail" THEN <<Ex(V(rv))>> ELSE <<>>
-      body == CASE sc[2] = "late" -> defs \o opst \o pin1.s \o pin2.s \o retst
-                [] sc[2] = "early" -> defs \o pin1.s \o pin2.s \o opst \o retst
-                [] sc[2] = "between" -> defs \o pin1.s \o opst \o pin2.s \o retst
+      body == CASE sc[2] = "late" -> defs \o opst \o rpin("rfirst") \o pin1.s \o pin2.s \o rpin("rlast") \o retst
+                [] sc[2] = "early" -> defs \o pin1.s \o pin2.s \o opst \o rpin("rfirst") \o rpin("rlast") \o retst
+                [] sc[2] = "between" -> defs \o pin1.s \o opst \o rpin("rfirst") \o pin2.s \o rpin("rlast") \o retst
       fnlit == Fn(<<P(501, TNone), P(502, TNone)>>, retty, body)
       args == <<Lit(ts[1], 1), Lit(ts[2], 2)>>
       pg == pin1.g \o pin2.g IN
@@ -178,10 +210,11 @@ LSide(m, planted) ==
     [] sc[1] = "global" -> OG(pg \o <<DefN(1400, "const", TNone, fnlit, "")>>, <<Ex(Call(V(1400), args))>>)
 LKind(m) ==
   LET p == LOpPairs[m[2]] IN
-  "late:" \o p.op \o ":" \o p.ts[1] \o "~" \o p.ts[2] \o "@" \o LShapeOf(m) \o "/" \o LSiteOf(m)[1] \o "+" \o LSiteOf(m)[2]
+  "late:" \o p.op \o ":" \o p.ts[1] \o "~" \o p.ts[2] \o (IF p.rt = "" THEN "" ELSE ">" \o p.rt \o "-" \o p.rpos) \o "@" \o LShapeOf(m) \o "/" \o LSiteOf(m)[1] \o "+" \o LSiteOf(m)[2]
   \o "/" \o LScen[m[4]][1] \o "-" \o LScen[m[4]][2]
-LRule(m) == LET op == LOpPairs[m[2]].op IN IF op = "==" THEN "eq-equal-types" ELSE OpRule(op)
-LDefinite(m) == LET p == LOpPairs[m[2]] IN ~Sat(LSys(p.op, LShapeOf(m), p.ts)) /\ Sat(LSys(p.op, LShapeOf(m), LBaseTs))
+LRule(m) == LET p == LOpPairs[m[2]] IN IF p.rt # "" THEN "decl-type" ELSE IF p.op = "==" THEN "eq-equal-types" ELSE OpRule(p.op)
+LDefinite(m) == LET p == LOpPairs[m[2]] IN ~Sat(LSys(p.op, LShapeOf(m), p.ts, p.rt))
+                                          /\ Sat(LSys(p.op, LShapeOf(m), LBaseTs, IF p.rt = "" THEN "" ELSE LBaseRt(p.op)))
 
 ---------------------------------------------------------------------------
 (* FAMILY V: one value with an unresolved element type, used at two types *)
@@ -452,7 +485,10 @@ SChains(m, seed, smod) ==
 (* Spec-level sanity *)
 ShareSane ==
   /\ Len(LOpPairs) >= 10 /\ Len(LOpPairs) < Len(LAll)                       \* the model selects: some combinations are well typed
-  /\ \A i \in 1..Len(LOpPairs) : LOpPairs[i].ts # LBaseTs
+  /\ \A i \in 1..Len(LOpPairs) : (LOpPairs[i].rt = "") = (LOpPairs[i].ts # LBaseTs)
+  /\ \A i \in 1..Len(LOpPairs) : LOpPairs[i].rt # LBaseRt(LOpPairs[i].op)
+  /\ \E i \in 1..Len(LOpPairs) : LOpPairs[i].op = "/" /\ LOpPairs[i].rt = "int"           \* the quotient of two ints is no int
+  /\ ~\E i \in 1..Len(LOpPairs) : LOpPairs[i].op \in {"+", "-", "*"} /\ LOpPairs[i].rt = "int"
   /\ \A op \in {"-", "*", "/"} : \E i \in 1..Len(LOpPairs) : LOpPairs[i].op = op /\ LOpPairs[i].ts = <<"str", "str">>
   /\ ~\E i \in 1..Len(LOpPairs) : LOpPairs[i].op \in {"+", "<", "=="} /\ LOpPairs[i].ts = <<"str", "str">>
   /\ Len(VPairs) = 2
